@@ -28,7 +28,7 @@ func init() {
 		ID: "C05", Level: "model_checking",
 		Rule:   "BX over a boundary grid: 10 frame types x stream ids {0,1,2^31-1} x flag setter combinations x payload lengths {0,1,2,255,256,16383,16384} x pad choices x priority x field boundary values {0,1,max-1,max}; write side via public setters + WriteTo read by the independent parser, read side via the independent writer (x reserved bit x undefined flag bits x pad fill) read by ReadFrameFrom followed by a sentinel. Non-trivial: frame has padding, priority, payload >= 256 or a boundary field value; distinct by frame bytes.",
 		Assume: []string{"peer.SemOf/peer.Raw are RFC 7540 section 6 (x/net's Framer parses every generated frame too; disagreements counted)", "stream ids above 2^31-1 are outside the write-side domain (FrameHeader.SetStream documents that it keeps the reserved bit)"},
-		Run:    runC05, Replay: replayC05, QuickS: 40, ThoroughS: 400,
+		Run:    runC05, Replay: replayC05, QuickS: 120, ThoroughS: 400,
 	})
 }
 
